@@ -168,7 +168,7 @@ def run_instance(inst):
         q = smt.Query("C02/UNI", flatten_div=True); E.declare_positive(q, xu + ex_u); q.declare("u")
         for e_ in ex_u: q.add(e_)
         q.add_any([sym.ne(a, u) for a in xu])
-        r = q.check(timeout=timeout)
+        r = q.check(timeout=min(timeout, 30))      # has a compositional fallback below
         res["counters"][f"UNI_{r.status}"] = 1
         if r.status != "unsat":
             # compositional: the uniform vector satisfies every scheme row (identity in u and the
@@ -247,7 +247,7 @@ def run_instance(inst):
         q = smt.Query("C02/CONS/direct", flatten_div=True); E.declare_positive(q, [tot] + extra_s)
         for e_ in extra_s: q.add(e_)
         q.add(sym.ne(tot, const(0)))
-        r = q.check(timeout=timeout)
+        r = q.check(timeout=min(timeout, 30))      # has a compositional fallback below
         res["counters"][f"CONS_direct_{r.status}"] = 1
         if r.status != "unsat":
             # compositional: sum_i A_i c_i row_i(x) == charge residual(x) for free x (then L2 gives the claim)
